@@ -98,10 +98,11 @@ class Aff:
 
 
 class Trig:
-    __slots__ = ("kind", "sgn", "unit", "poly", "scale")
+    __slots__ = ("kind", "sgn", "unit", "poly", "scale", "kappa")
 
-    def __init__(self, kind: str, sgn: int, unit: bool, poly: Poly, scale: str):
+    def __init__(self, kind: str, sgn: int, unit: bool, poly: Poly, scale: str, kappa: Optional[Tuple[Fraction, Dict[str, int]]] = None):
         self.kind, self.sgn, self.unit, self.poly, self.scale = kind, sgn, unit, poly, scale
+        self.kappa = kappa  # (coefficient, {positive symbol: exponent}) of the factor in front of sin / cos, when it is a monomial
 
     def text(self) -> str:
         base = "sin(phi)" if self.kind == "s" else "cos(phi)"
@@ -195,6 +196,40 @@ class Leaves:
         self.xref = alg.dot(alg.cross(b1, b2), alg.cross(b2, b3))
         self.nn = mul(alg.norm(alg.cross(b1, b2)), alg.norm(alg.cross(b2, b3)))  # |b1 x b2| |b2 x b3|
         self.cache: Dict[int, Any] = {}
+        # the norms in independent parameters of the geometry: bond lengths l1, l2, l3 and the sines s1, s2 of the two bond angles
+        self.params: Dict[str, Dict[str, int]] = {
+            TA.alg_atom(alg, b1): {"l1": 1},
+            TA.alg_atom(alg, b2): {"l2": 1},
+            TA.alg_atom(alg, b3): {"l3": 1},
+            TA.alg_atom(alg, alg.cross(b1, b2)): {"l1": 1, "l2": 1, "s1": 1},
+            TA.alg_atom(alg, alg.cross(b2, b3)): {"l2": 1, "l3": 1, "s2": 1},
+        }
+
+    # domain of the property: bond lengths 0.8-2.5 A, bond angles 20-160 degrees (independent of each other and of phi)
+    BOX = {"l1": (0.8, 2.5), "l2": (0.8, 2.5), "l3": (0.8, 2.5), "s1": (math.sin(math.radians(20.0)), 1.0), "s2": (math.sin(math.radians(20.0)), 1.0)}
+
+    def factor_range(self, kappa: Tuple[Fraction, Dict[str, int]]) -> Optional[Tuple[float, float, str, Dict[str, float]]]:
+        """(inf, sup, text, where the sup is taken) of a monomial factor over the domain, None when it contains other symbols"""
+        coef, mono = kappa
+        e: Dict[str, int] = {}
+        for v, x in mono.items():
+            if v not in self.params:
+                return None
+            for q, y in self.params[v].items():
+                e[q] = e.get(q, 0) + x * y
+        e = {q: y for q, y in e.items() if y}
+        lo = hi = float(coef)
+        at: Dict[str, float] = {}
+        for q, y in sorted(e.items()):
+            a, b = self.BOX[q]
+            lo *= (a if y > 0 else b) ** y
+            hi *= (b if y > 0 else a) ** y
+            at[q] = b if y > 0 else a
+        names = {"l1": "|b1|", "l2": "|b2|", "l3": "|b3|", "s1": "sin(theta1)", "s2": "sin(theta2)"}
+        num = " ".join(names[q] + (f"^{y}" if y > 1 else "") for q, y in sorted(e.items()) if y > 0) or "1"
+        den = " ".join(names[q] + (f"^{-y}" if y < -1 else "") for q, y in sorted(e.items()) if y < 0)
+        text = (f"{float(coef):g} * " if coef != 1 else "") + num + (f" / ({den})" if den else "")
+        return lo, hi, text, at
 
     def classify(self, p: Poly, text: str) -> Any:
         alg = self.alg
@@ -227,7 +262,12 @@ class Leaves:
                 if alg.is_zero(add(p, mul({pm: coef}, ref), -1)):
                     # a fresh scale symbol C<n> stands for `1/|v| or 1` of a conditional normalisation: the factor is then not known
                     opaque = any(str(v).startswith("C") for v, _ in pm)
-                    return Trig(kind, 1 if coef > 0 else -1, None if opaque else False, p, text[:30])
+                    # p = coef * pm * ref ; cos(phi) = xref / nn, sin(phi) = |b2| det / nn   ->   factor = |coef| * pm * nn (/ |b2|)
+                    k = mul({pm: F(1)}, self.nn)
+                    if kind == "s":
+                        k = mul(k, {tuple((v, -x) for v, x in next(iter(self.n2))): F(1)})
+                    ((km, kc),) = k.items()
+                    return Trig(kind, 1 if coef > 0 else -1, None if opaque else False, p, text[:30], (abs(coef) * kc, dict(km)))
         raise Undecided(f"`{text[:50]}` is neither a positive multiple of the sine term b1.(b2 x b3) nor of the cosine term (b1 x b2).(b2 x b3)")
 
     def same_scale(self, y: Trig, x: Trig) -> bool:
@@ -599,12 +639,12 @@ class _ConstArg(Exception):
         self.v = v
 
 
-def analyse_circle(fn: ast.FunctionDef, fold: Optional[Callable[[ast.AST], Any]] = None) -> Dict[str, Any]:
+def analyse_circle(fn: ast.FunctionDef, fold: Optional[Callable[[ast.AST], Any]] = None, helpers: Optional[Dict[str, ast.FunctionDef]] = None) -> Dict[str, Any]:
     """Prefix by the algebra (as sa/torsion.analyse), the rest once per cell.  Result: the keys the guard rule needs
     ('guards', 'alg', 'quantities') + 'cells': [(cell name, geometry, outcome)] with outcome
     ('value', Aff, notes) | ('not-angle', reason) | ('undecided', reason) | ('other', text)  and 'first': the first
     statement of the part read on the circle."""
-    alg = TA.NumAlgebra(fold)
+    alg = TA.NumAlgebra(fold, helpers)
     pnames = [a.arg for a in fn.args.args][:4]
     if len(pnames) != 4:
         raise AlgebraError("torsion function does not take four points")
@@ -632,6 +672,8 @@ def analyse_circle(fn: ast.FunctionDef, fold: Optional[Callable[[ast.AST], Any]]
                     vals.append(TA.Opaque(str(ex)))
             for a, b in zip(t.elts, vals):
                 env[a.id] = b
+        elif isinstance(t, (ast.Tuple, ast.List)):
+            alg._bind_target(t, alg.ev(v, env), env)  # a sequence value (comprehension, helper result) unpacked
         else:
             raise AlgebraError(f"assignment outside the straight-line idiom: {ast.unparse(t)[:40]} = {ast.unparse(v)[:40]}")
 
@@ -650,6 +692,18 @@ def analyse_circle(fn: ast.FunctionDef, fold: Optional[Callable[[ast.AST], Any]]
             bind(st.target, st.value)
         elif TA.is_guard(st):
             guards.append((st, dict(env), dict(defs)))
+        elif isinstance(st, ast.If) and not any(isinstance(n, (ast.Return, ast.If, ast.For, ast.While)) for b in (st.body, st.orelse) for x in b for n in ast.walk(x)):
+            # a two-way assignment block: the branch that is taken on the whole domain of the property (`if |b2| > 1e-6: ... else: ...`)
+            side = alg._tiny_lower_bound(st.test, env)
+            if side is None:
+                raise AlgebraError(f"`if {ast.unparse(st.test)[:40]}` is not decided on the domain of the property")
+            for sub in (st.body if side else st.orelse):
+                if isinstance(sub, ast.Assign) and len(sub.targets) == 1:
+                    bind(sub.targets[0], sub.value)
+                elif isinstance(sub, ast.AnnAssign) and sub.value is not None:
+                    bind(sub.target, sub.value)
+                elif not isinstance(sub, (ast.Expr, ast.Pass)):
+                    raise AlgebraError(f"statement outside the straight-line idiom: {ast.unparse(sub)[:60]}")
         else:
             raise AlgebraError(f"statement outside the straight-line idiom: {ast.unparse(st)[:60]}")
     if start is None:
